@@ -135,6 +135,53 @@ def stepHost (ins impl : List String) : Option String := do
     else if io.reason == hostVerdict ci then some "C19.host-privacy" else some "C19.host-verdict"
   pure (verdict (showO m == "\t".intercalate impl) spec (showO m))
 
+/-- C19.par: overlapping lookups on the block's Checker — every lookup scans the
+cache (in the order given), then those that have to ask get their answer and
+store it (in the same order). -/
+def stepPar (st : St) (ins impl : List String) : Option (St × String) := do
+  let (calls, _) ← (do
+      let calls ← pList (do
+        let host ← pHex; let ps ← pHex; let icann ← pBool
+        let pairs ← pList (do let s ← pHex; let h ← pHex; pure (s, h))
+        pure (host, ps, icann, pairs))
+      pEnd
+      pure calls : P _).run ins
+  if !calls.all (fun c => (subdomains c.1).all (fun s => (c.2.2.2.lookup s).isSome) &&
+      c.2.2.2.all (fun p => p.2.length == 32)) then none
+  let exch := serve st.db plainScript
+  let hOf (c : Bytes × Bytes × Bool × List (Bytes × Hash)) : Bytes → Hash := fun s => (c.2.2.2.lookup s).getD []
+  -- phase 1: the cache scans
+  let ph1 := calls.foldl (fun (acc : Cache × List (Option (List Hash) × Outcome)) c =>
+    match findInCache st.now (hostnameToHashes (hOf c) c.2.1 c.2.2.1 c.1) acc.1 with
+    | (.cached b, c1) => (c1, acc.2 ++ [(none, ⟨.blocked b, none⟩)])
+    | (.ask toReq, c1) => (c1, acc.2 ++ [(some toReq, ⟨.upstreamErr, none⟩)])) (st.cache, [])
+  -- phase 2: exchange and store
+  let ph2 := ph1.2.foldl (fun (acc : Cache × List Outcome) r =>
+    match r.1 with
+    | none => (acc.1, acc.2 ++ [r.2])
+    | some toReq =>
+      let a := checkAnswer st.cf st.now toReq exch canonGroups acc.1
+      (a.2, acc.2 ++ [a.1])) (ph1.1, [])
+  let showCall (o : Outcome) := [showVerdict o.verdict,
+    (match o.question with | some _ => "1" | none => "0"),
+    (match o.question with | some q => hexEncode q | none => "-")]
+  let modelStr := "\t".intercalate (ph2.2.flatMap showCall ++ showDump st.base ph2.1)
+  -- monitor: every call against ITS OWN name
+  let rec mon (cs : List (Bytes × Bytes × Bool × List (Bytes × Hash))) (im : List String) : Option String :=
+    match cs, im with
+    | [], _ => none
+    | c :: cs', v :: a :: q :: im' =>
+      match parseVerdict v, parseBool a, hexDecode q with
+      | some iv, some ia, some iq =>
+        let io : Outcome := ⟨iv, if ia then some iq else none⟩
+        let ci : CheckIn := ⟨st.cf.suffix, st.db, c.1, c.2.1, c.2.2.1, hOf c, false⟩
+        if specOK ci io then mon cs' im'
+        else if !(privacyOK (hOf c) st.cf.suffix c.2.1 c.2.2.1 c.1 io.question) then some "C19.foreign-prefix-sent"
+        else some "C19.verdict:concurrent"
+      | _, _, _ => some "C19.par:unparsable"
+    | _, _ => some "C19.par:unparsable"
+  pure ({ st with cache := ph2.1 }, verdict (modelStr == "\t".intercalate impl) (mon calls impl) modelStr)
+
 def step (st : St) (line : String) : St × String :=
   let fs := splitTab line
   match fs with
@@ -150,6 +197,21 @@ def step (st : St) (line : String) : St × String :=
         if !db.all (fun h => h.length == 32) then (st, "bad-op") else
         let base := ((impl.drop 1).headD "0").toNat?.getD 0
         (⟨⟨suffix, ttl⟩, db, Cache.new maxSize, 0, true, base⟩, verdict (impl.headD "" == "ok") none "ok")
+      | none => (st, "bad-op")
+    | none => (st, "bad-op")
+  | "C19.checkfields" :: rest =>
+    -- extracted fact: the Checker fields the body of Check touches (the request is built from locals)
+    match splitArrow rest with
+    | some (_, impl) =>
+      (st, verdict (impl == ["svc upstream"]) (if impl == ["svc upstream"] then none else some "C19.shared-request-state")
+        "svc upstream")
+    | none => (st, "bad-op")
+  | "C19.par" :: rest =>
+    match splitArrow rest with
+    | some (ins, impl) =>
+      if !st.ok then (st, "bad-op") else
+      match stepPar st ins impl with
+      | some r => r
       | none => (st, "bad-op")
     | none => (st, "bad-op")
   | "C19.consts" :: rest =>
